@@ -32,7 +32,7 @@ pub open spec fn sv_list_contains(list: SV, x: SV) -> bool {
 ///     call returned normally with `()` — i.e. the `try_` call gave Ok(Ok(())).
 pub open spec fn claim_witness(calls: Seq<Call>, lo: int, identity: Address, t: u32, issuer: Address, a: int, b: int, c: int) -> bool {
     let claim = Claim::unsv(calls[b].ret);
-    &&& lo < a < b < c < calls.len()
+    &&& 0 <= lo < a < b < c < calls.len()
     &&& calls[a].ok && calls[a].callee == identity && calls[a].func == fn_get_claim_ids_by_topic() && calls[a].args == seq![t.sv()]
     &&& sv_list_contains(calls[a].ret, SV::Bytes(claim_id_spec(issuer, t)))
     &&& calls[b].ok && calls[b].callee == identity && calls[b].func == fn_get_claim() && calls[b].args == seq![SV::Bytes(claim_id_spec(issuer, t))]
@@ -66,23 +66,27 @@ pub open spec fn topics_verified_upto(calls: Seq<Call>, lo: int, identity: Addre
 }
 
 // ---- the log only grows: evidence found once stays ----
-pub proof fn lemma_witness_push(calls: Seq<Call>, rec: Call, lo: int, identity: Address, t: u32, issuer: Address, a: int, b: int, c: int)
-    requires claim_witness(calls, lo, identity, t, issuer, a, b, c),
-    ensures claim_witness(calls.push(rec), lo, identity, t, issuer, a, b, c),
-{}
-pub broadcast proof fn lemma_verified_push(calls: Seq<Call>, rec: Call, lo: int, identity: Address, t: u32, issuers: Seq<Address>)
-    requires topic_verified(calls, lo, identity, t, issuers),
-    ensures #[trigger] topic_verified(calls.push(rec), lo, identity, t, issuers),
+pub proof fn lemma_witness_prefix(calls: Seq<Call>, calls2: Seq<Call>, lo: int, identity: Address, t: u32, issuer: Address, a: int, b: int, c: int)
+    requires claim_witness(calls, lo, identity, t, issuer, a, b, c), calls.is_prefix_of(calls2),
+    ensures claim_witness(calls2, lo, identity, t, issuer, a, b, c),
+{
+    let s = calls2.subrange(0, calls.len() as int);
+    assert(calls == s);
+    assert(s[a] == calls2[a] && s[b] == calls2[b] && s[c] == calls2[c]);
+}
+pub proof fn lemma_verified_prefix(calls: Seq<Call>, calls2: Seq<Call>, lo: int, identity: Address, t: u32, issuers: Seq<Address>)
+    requires topic_verified(calls, lo, identity, t, issuers), calls.is_prefix_of(calls2),
+    ensures topic_verified(calls2, lo, identity, t, issuers),
 {
     let (j, a, b, c) = choose|j: int, a: int, b: int, c: int| 0 <= j < issuers.len() && #[trigger] claim_witness(calls, lo, identity, t, issuers[j], a, b, c);
-    lemma_witness_push(calls, rec, lo, identity, t, issuers[j], a, b, c);
+    lemma_witness_prefix(calls, calls2, lo, identity, t, issuers[j], a, b, c);
 }
-pub proof fn lemma_upto_push(calls: Seq<Call>, rec: Call, lo: int, identity: Address, tai: Seq<(u32, Vec<Address>)>, n: int)
-    requires topics_verified_upto(calls, lo, identity, tai, n),
-    ensures topics_verified_upto(calls.push(rec), lo, identity, tai, n),
+pub proof fn lemma_upto_prefix(calls: Seq<Call>, calls2: Seq<Call>, lo: int, identity: Address, tai: Seq<(u32, Vec<Address>)>, n: int)
+    requires topics_verified_upto(calls, lo, identity, tai, n), calls.is_prefix_of(calls2),
+    ensures topics_verified_upto(calls2, lo, identity, tai, n),
 {
-    assert forall|k: int| 0 <= k < n && k < tai.len() implies #[trigger] topic_verified(calls.push(rec), lo, identity, tai[k].0, tai[k].1@) by {
-        lemma_verified_push(calls, rec, lo, identity, tai[k].0, tai[k].1@);
+    assert forall|k: int| 0 <= k < n && k < tai.len() implies #[trigger] topic_verified(calls2, lo, identity, tai[k].0, tai[k].1@) by {
+        lemma_verified_prefix(calls, calls2, lo, identity, tai[k].0, tai[k].1@);
     }
 }
 
@@ -110,4 +114,42 @@ pub proof fn lemma_untrusted_issuer_never_counts(calls: Seq<Call>, lo: int, iden
 {
     let (j, a, b, c) = choose|j: int, a: int, b: int, c: int| 0 <= j < issuers.len() && #[trigger] claim_witness(calls, lo, identity, t, issuers[j], a, b, c);
     assert(issuers.contains(issuers[j]));
+}
+
+// ---- loop vocabulary for verify_identity ----
+/// log position of the second call of verify_identity; the per-topic evidence lies after it
+pub open spec fn vi_lo(w: World) -> int { w.calls.len() as int + 1 }
+/// the first two calls of verify_identity: whose identity, and which topics / issuers are required NOW
+pub open spec fn vi_head(w: World, calls: Seq<Call>, account: Address, identity: Address, tai: SdkMap<u32, Vec<Address>>) -> bool {
+    let n0 = w.calls.len() as int;
+    &&& cur_irs(w).is_some() && cur_cti(w).is_some()
+    &&& calls.len() >= n0 + 2
+    &&& calls[n0] == a_call(cur_irs(w).unwrap(), fn_stored_identity(), seq![account.sv()], identity.sv())
+    &&& calls[n0 + 1] == a_call(cur_cti(w).unwrap(), fn_get_claim_topics_and_issuers(), Seq::<SV>::empty(), tai.sv())
+}
+/// what the eagerly mapped enumerate of the inner loop yields: (issuer, its claim id for the topic, "is the last one")
+pub open spec fn vi_items(items: Seq<(Address, BytesN<32>, bool)>, issuers: Seq<Address>, t: u32) -> bool {
+    &&& items.len() == issuers.len()
+    &&& forall|i: int| 0 <= i < items.len() ==> (#[trigger] items[i]).0 == issuers[i] && items[i].1@ == claim_id_spec(issuers[i], t)
+            && (items[i].2 <==> i == issuers.len() - 1)
+}
+pub proof fn lemma_vi_post(w: World, w2: World, account: Address, identity: Address, tai: SdkMap<u32, Vec<Address>>)
+    requires vi_head(w, w2.calls, account, identity, tai),
+        topics_verified_upto(w2.calls, vi_lo(w), identity, tai@, tai@.len() as int),
+    ensures verify_identity_post(w, w2, account),
+{
+    identity.lemma_rt();
+    tai.lemma_rt();
+    let n0 = w.calls.len() as int;
+    assert(Address::unsv(w2.calls[n0].ret) == identity);
+    assert(SdkMap::<u32, Vec<Address>>::unsv(w2.calls[n0 + 1].ret) == tai);
+}
+/// the id list returned by the identity contract contains `id` (exec `contains` on the decoded list) ⇒ so does its encoding
+pub proof fn lemma_ids_contains(ids: Vec<BytesN<32>>, id: BytesN<32>)
+    requires ids@.contains(id),
+    ensures sv_list_contains(ids.sv(), SV::Bytes(id@)),
+{
+    let i = choose|i: int| 0 <= i < ids@.len() && ids@[i] == id;
+    let s = Seq::new(ids@.len(), |i: int| ids@[i].sv());
+    assert(s[i] == SV::Bytes(id@));
 }
